@@ -19,3 +19,21 @@ PART["C18"] = {
     "assumptions": ["bbolt and the Go map/sort reference are trusted", "postgres back-end cannot be started offline: not covered",
                     "Seek(absent round) is only required to return a correctly labelled beacon or nothing (the statement fixes nothing else)"],
 }
+
+PART["C17"] = {
+    "runs": [{"name": "pure", "pkg": P, "run": "^TestVF_C17$", "timeout": "30m", "timeout_thorough": "60m"}],
+    "rule": "generated groups (1..10 nodes, admissible thresholds, all 5 schemes, optional seed/transition/non-default id); per group the chain hash is compared across "
+            "6 encoding paths (group->info, proto, v2 JSON, hexjson, group file via key.Save/Load, group proto), every single-field perturbation must change it, membership changes must not, "
+            "tampered v2 JSON must be rejected, 5 node permutations must keep the group hash and every single-field perturbation must change it; distinct = distinct generated group",
+    "assumptions": ["SHA-256/blake2b collision resistance (a perturbation leaving the hash unchanged is reported as insensitivity)",
+                    "periods below 2^32 s (the hash commits to uint32 seconds)"],
+}
+
+PART["C20"] = {
+    "runs": [{"name": "pure", "pkg": P, "run": "^TestVF_C20", "timeout": "30m", "timeout_thorough": "60m"}],
+    "rule": "generated values over the 5 schemes (groups of 1..10 nodes with optional public key/seed/transition time/zero catch-up/default or named id, key pairs, shares, chain infos, beacons with "
+            "random byte strings of 0..1 MiB) are encoded and decoded through the real paths (key.Save/Load files, protobuf wire bytes, v2 JSON, hexjson, bolt/memdb stores with re-open) and compared "
+            "field by field, by hash and by re-encoding; group encodings with threshold 0 / below minimum / above n / unknown scheme must be refused on the TOML and protobuf paths; distinct = distinct "
+            "(scheme, n, threshold, optional-field combination)",
+    "assumptions": ["kyber point/scalar Equal and BurntSushi/toml, protobuf, encoding/json are trusted", "whole-second periods", "empty signatures are not stored (the system cannot produce them)"],
+}
